@@ -18,48 +18,53 @@ Theorem C13_ratfun_sound : forall rho e, defined rho e ->
 Proof. exact rnorm_sound. Qed.
 
 (* THE CHECKER IS SOUND (a precondition's set of numeric conditions, with elimination by its equalities):
-   if check_pre accepts (conds, out) there are "mid" conditions such that
-   - for every valuation where no divisor vanishes, conds hold exactly when the mid conditions hold
-     (conditions omitted from the output are implied, eliminations are justified by the kept equalities),
-   - every mid condition is printed: some output condition is it, with each polynomial coefficient rounded by
-     at most half a unit of the d-th decimal (or is it verbatim, when nothing had to be rounded),
+   if check_pre accepts (conds, out) - whatever untrusted hints hs it was given - there are "mid" conditions with
+   - for every valuation where no divisor of conds or mid vanishes, conds hold exactly when the mid conditions hold
+     (an omitted condition is an identity or is implied by the equalities of conds, which are themselves covered;
+     eliminations are justified by those equalities),
+   - every mid condition is printed: some output condition is it with every constant rounded by at most half a unit
+     of the d-th decimal - coefficientwise on polynomial normal forms (MPoly) or constant by constant on the same
+     expression tree, terms whose constant factor rounds to zero dropped (MExact, relation cround/eround),
    - every output condition is such a rounding of a mid condition (nothing is invented).
    That the output uses only binary + - * / is by construction: [cond] has no other operators and
    [cond_of_sexp] rejects everything else. *)
-Theorem C13_checker_sound : forall d conds out,
-  check_pre d conds out = true ->
+Theorem C13_checker_sound : forall d hs conds out,
+  check_pre d hs conds out = true ->
   exists mid : list mcond,
-    (forall rho, defined_all rho conds -> defined_all rho out ->
+    (forall rho, defined_all rho conds -> Forall (mdefined rho) mid ->
                  (sat_all rho conds <-> Forall (msat rho) mid)) /\
     (forall m, In m mid -> exists o, In o out /\ rounded d m o) /\
     (forall o, In o out -> exists m, In m mid /\ rounded d m o).
 Proof. exact check_pre_sound. Qed.
 
-(* one inequality simplified under explicitly given assumptions (simplify_inequality) *)
-Theorem C13_inequality_sound : forall d assumptions c o m,
-  check_under d assumptions c o = Some m ->
+(* one inequality simplified under explicitly given assumptions (simplify_inequality) ... *)
+Theorem C13_inequality_sound : forall d assumptions hs c o m,
+  check_under d assumptions hs c o = Some m ->
   rounded d m o /\
-  forall rho, sat_all rho assumptions -> cdefined rho c -> cdefined rho o -> (sat rho c <-> msat rho m).
+  forall rho, sat_all rho assumptions -> cdefined rho c -> mdefined rho m -> (sat rho c <-> msat rho m).
 Proof. exact check_under_sound. Qed.
 
+(* ... or omitted by it: only if the assumptions imply it *)
+Theorem C13_omitted_only_if_implied : forall assumptions c,
+  implied (filter is_eq assumptions) c = true -> forall rho, sat_all rho assumptions -> sat rho c.
+Proof. exact implied_under_sound. Qed.
+
 (* a bare expression (simplify_complex_numeric_expression) *)
-Theorem C13_expression_sound : forall d e o,
-  check_expr d e o = true ->
+Theorem C13_expression_sound : forall d hs e o,
+  check_expr d hs e o = true ->
   (exists p q, (forall rho, eval rho e == peval rho p) /\ (forall rho, eval rho o == peval rho q) /\
                poly_close (tol_of d) p q)
-  \/ (forall rho, defined rho e -> defined rho o -> eval rho o == eval rho e).
+  \/ (exists h, eround (tol_of d) h o /\ forall rho, defined rho e -> defined rho h -> eval rho h == eval rho e).
 Proof. exact check_expr_sound. Qed.
 
-(* full-strength glue statement, refuted on the pinned tree by symbol collisions (finding D21): two different
-   fluents are printed as the same fluent *)
-Definition C13_glue_injective_naming : Prop :=
-  forall a b : string, symbol_name a = symbol_name b -> a = b.
-Theorem C13_glue_naming_refuted : ~ C13_glue_injective_naming.
-Proof. exact naming_refuted. Qed.
+(* sanity of the structural rounding relation: with tolerance 0 it preserves the value *)
+Theorem C13_eround_zero : forall rho h o, eround 0 h o -> eval rho h == eval rho o.
+Proof. exact eround_zero_same. Qed.
 
 Print Assumptions C13_norm_sound.
 Print Assumptions C13_ratfun_sound.
 Print Assumptions C13_checker_sound.
 Print Assumptions C13_inequality_sound.
 Print Assumptions C13_expression_sound.
-Print Assumptions C13_glue_naming_refuted.
+Print Assumptions C13_omitted_only_if_implied.
+Print Assumptions C13_eround_zero.
